@@ -23,7 +23,7 @@ import tracecheck
 import traceprep
 from common import Inconclusive, build_harness, log
 
-PREFIXES = ["healthy-timeout", "initerror", "crash", "timeout", "extcrash", "extiniterror", "one-ext-then-more", "ext-shutdown-error"]
+PREFIXES = ["healthy-timeout", "initerror", "crash", "timeout", "extcrash", "extiniterror", "one-ext-then-more", "ext-shutdown-error", "stubborn-ext"]
 SUFFIXES = ["healthy", "crash", "early-internal", "timeout", "init-crash", "ext-early-exit"]
 
 
@@ -68,6 +68,20 @@ def prefix(s, rnd, kind):
             if kind == "extcrash":
                 s.exit("ext:e1", signal=9)
             s.wait(it)     # one-ext-then-more: the runtime does not answer -> timeout
+    elif kind == "stubborn-ext":
+        # the extension ignores its SHUTDOWN event: the timeout reset has to kill it at the 2 s deadline and reports a
+        # failure - the environment is re-armed all the same
+        subs = {"e1": ["INVOKE", "SHUTDOWN"]}
+        s.await_exec(base="e1")
+        s.register("ext:e1", subs["e1"])
+        s.await_exec(kind="rt")
+        tags = {"ext:e1": s.poll("ext:e1"), "rt": s.poll("rt")}
+        it = s.invoke(size=4, seed=1)
+        s.wait(tags["rt"])
+        s.wait(tags["ext:e1"])
+        t = s.poll("ext:e1")
+        s.wait(t)           # SHUTDOWN, ignored
+        s.wait(it)
     elif kind == "ext-shutdown-error":
         # the extension reports an error while the timeout reset is shutting the environment down: the fault
         # recorded then belongs to the generation that is going away
@@ -139,9 +153,9 @@ def suffix(s, rnd, kind, subs):
 
 
 def one(sid, rnd, pre, suf):
-    ext1 = ["e1"] if pre in ("extcrash", "extiniterror", "one-ext-then-more", "ext-shutdown-error") else []
+    ext1 = ["e1"] if pre in ("extcrash", "extiniterror", "one-ext-then-more", "ext-shutdown-error", "stubborn-ext") else []
     # the suffix runs with the same directory (it cannot change), subscriptions may differ
-    s = Scn(sid, ext=ext1, timeout_ms=500, onTerm={"e1": "exit"}, opWaitMs=4000)
+    s = Scn(sid, ext=ext1, timeout_ms=500, onTerm={"e1": "exit"}, opWaitMs=6000)
     s.meta(family="reset-suffix", prefix=pre, suffix=suf)
     s.init()
     prefix(s, rnd, pre)
